@@ -13,12 +13,10 @@ echo "--- patch stat"; git apply --stat _seed/patch.diff | tail -3
 DEMO=$(ls _seed/*_test.go 2>/dev/null | head -1)
 rundemo() {
   if [ -n "$DEMO" ]; then
-    pkgdir=$(python3 -c "
-import json,re,sys
-m=json.load(open('_seed/meta.json')); d=m.get('demo','')
-mm=re.search(r'(?:to|into|as)\s+(\S*?)/?[A-Za-z0-9_]*_test\.go', d)
-print((mm.group(1) if mm and mm.group(1) not in ('','.') else '.').replace('WORKTREE/','').replace('$WT/','').replace('$WORKTREE/',''))")
-    pkgdir=${pkgdir#/tmp/seed-$ID/}; [ -d "$pkgdir" ] || pkgdir=.
+    pk=$(grep -m1 '^package ' $DEMO | awk '{print $2}' | sed 's/_test$//')
+    pkgdir=.
+    if [ "$pk" != "gozod" ]; then pkgdir=$(grep -rl --include=*.go "^package $pk\$" . 2>/dev/null | grep -v _seed | head -1 | xargs dirname); fi
+    [ -d "$pkgdir" ] || pkgdir=.
     cp $DEMO $pkgdir/zz_seed_demo_test.go
     (cd $pkgdir && go test -vet=off -count=1 -run 'Seed|seed|Demo|C[0-9][0-9]' . 2>&1 | tail -4); rc=${PIPESTATUS[0]}
     out=$(cd $pkgdir && go test -vet=off -count=1 -run 'Seed|seed|Demo|C[0-9][0-9]' . 2>&1 | tail -1)
